@@ -114,7 +114,8 @@ CATALOGUE = [
                     fragment_metadata->chksum_mismatch = 1;''', '''                if (stored_chksum != computed_chksum) {
                     fragment_metadata->chksum_mismatch = 0;''')]),
  dict(prop='C10', kind='M', name='checksum over blocksize - 1', rule='R10a', edits=[(POST, '        set_checksum(ct, fragment, blocksize);', '        set_checksum(ct, fragment, blocksize - 1);')]),
- dict(prop='C10', kind='M', name='unsigned byte fetch in the historical CRC', rule='R10d', edits=[('src/utils/chksum/crc32.c', '  const char *p;', '  const unsigned char *p;')]),
+ dict(prop='C10', kind='B', name='unsigned byte fetch in the historical CRC (index is masked: same function)', rule=None, edits=[('src/utils/chksum/crc32.c', '  const char *p;', '  const unsigned char *p;')]),
+ dict(prop='C10', kind='M', name='historical CRC without the sign-extending shift', rule='R10d', edits=[('src/utils/chksum/crc32.c', '((((crc >> 8) & 0x00FFFFFF) ^ 0x00800000) - 0x00800000)', '((crc >> 8) & 0x00FFFFFF)')]),
  dict(prop='C10', kind='M', name='mismatch not rejected', rule='R10c', edits=[(E, '''    if (fragment_metadata->chksum_mismatch == 1) {
         return -EBADCHKSUM;
     }
